@@ -245,3 +245,24 @@
    (=> (= (blen o) 20) (= (bslice (kbytes (KOwnerBind o s p)) 21 (blen (kbytes (KOwnerBind o s p)))) (obTail s p)))) :pattern ((kbytes (KOwnerBind o s p))))))
 (assert (forall ((s Str) (p Bytes)) (! (and (= (blen (obTail s p)) (+ 1 (strlen s) (blen p))) (= (bytesIndex (obTail s p) g_types_EmptyByte) (strlen s))
    (= (b2s (bslice (obTail s p) 0 (strlen s))) s) (= (bslice (obTail s p) (+ (strlen s) 1) (blen (obTail s p))) p)) :pattern ((obTail s p)))))
+
+; ---- zero-height preparation (C19)
+; refunding every pending request fee to its consumer, in marker order
+(declare-fun refundIt ((Array Bytes (Array Str Int)) (Array Key Bytes) Prefix Int) (Array Bytes (Array Str Int)))
+(assert (forall ((b (Array Bytes (Array Str Int))) (s (Array Key Bytes)) (p Prefix)) (! (= (refundIt b s p 0) b) :pattern ((refundIt b s p 0)))))
+(assert (forall ((b (Array Bytes (Array Str Int))) (s (Array Key Bytes)) (p Prefix) (n Int)) (! (=> (> n 0) (= (refundIt b s p n)
+   (let ((rq (requestOrZero s (BytesValue_Value (dec_BytesValue (select s (itKey s p (- n 1))))))))
+     (bankMove (refundIt b s p (- n 1)) (modAddr strlit_requestAcc) (Request_Consumer rq) (Request_ServiceFee rq))))) :pattern ((refundIt b s p n)))))
+; returning every earned-fee record to the provider of its key
+(declare-fun refundEarnedIt ((Array Bytes (Array Str Int)) (Array Key Bytes) Prefix Int) (Array Bytes (Array Str Int)))
+(assert (forall ((b (Array Bytes (Array Str Int))) (s (Array Key Bytes)) (p Prefix)) (! (= (refundEarnedIt b s p 0) b) :pattern ((refundEarnedIt b s p 0)))))
+(assert (forall ((b (Array Bytes (Array Str Int))) (s (Array Key Bytes)) (p Prefix) (n Int)) (! (=> (> n 0) (= (refundEarnedIt b s p n)
+   (bankMove (refundEarnedIt b s p (- n 1)) (modAddr strlit_requestAcc) (kea_prov (itKey s p (- n 1)))
+      (newCoins (mkSlice 1 (store zarr_Coin 0 (dec_Coin (select s (itKey s p (- n 1)))))))))) :pattern ((refundEarnedIt b s p n)))))
+; earned-fee key parsing (layout lemma of layer K): key[1:] is provider || denom; stripping the denomination gives the provider
+(assert (forall ((p Bytes) (d Str)) (! (and (= (blen (kbytes (KEarned p d))) (+ 1 (blen p) (strlen d)))
+   (= (bslice (kbytes (KEarned p d)) 1 (blen (kbytes (KEarned p d)))) (bconcat p (s2b d)))
+   (= (bslice (kbytes (KEarned p d)) 1 (- (blen (kbytes (KEarned p d))) (strlen d))) p)) :pattern ((kbytes (KEarned p d))))))
+; every earned-fee record holds a coin of the denomination named in its key
+(define-fun wfEarned ((r (Array Key Bytes))) Bool
+  (forall ((p Bytes) (d Str)) (! (=> (not (= (select r (KEarned p d)) bnil)) (= (Coin_Denom (dec_Coin (select r (KEarned p d)))) d)) :pattern ((select r (KEarned p d))))))
